@@ -254,6 +254,20 @@ class LockFlow:
                     if name == "lock":
                         return st.hold(lock)
                     return self._release(st, lock, pos)
+            # util::yield_while([&l] { return !l.try_lock(); }): the guard is owned afterwards
+            if name == "yield_while" and args and isinstance(args[0], dict) and strip(args[0]).get("k") == "lambda":
+                body = self.fn.facts.by_id.get(strip(args[0]).get("id"))
+                if body is not None:
+                    for _, _, rev in body.all_events():
+                        if rev.get("k") == "return" and rev.get("e") is not None:
+                            atom, pos_ = cond_atoms(rev["e"])
+                            m = re.match(r"^(\w+)\.try_lock\(\)$", atom)
+                            if m and not pos_ and st.g(m.group(1)) is not None:
+                                l, o, kind = st.g(m.group(1))
+                                st = st.setg(m.group(1), l, True)
+                                if l is not None:
+                                    st = st.hold(l)
+                return st
             # guards passed by reference to a callee that releases and re-acquires
             for i, a in enumerate(args):
                 a0 = strip(a)
@@ -486,7 +500,38 @@ def event_positions(fn, pred):
     return [(b, i) for b, i, ev in fn.all_events() if pred(ev)]
 
 
-def precedes_on_all_paths(fn, a_pred, b_pos, reset_pred=None):
+def reaching_defs(fn, name, pos):
+    """Positions of the decl/write events of local `name` that may reach pos."""
+    def is_def(ev):
+        if ev.get("k") == "decl" and ev.get("var") == name:
+            return True
+        if ev.get("k") == "write" and P(ev["lhs"]) == name:
+            return True
+        if ev.get("k") == "call" and ev.get("op") in ("=", "+=", "-=") and ev.get("recv") is not None and P(ev["recv"]) == name:
+            return True
+        return False
+
+    def tr(st, ev, p):
+        return frozenset([p]) if is_def(ev) else st
+    before, _, _ = forward(fn, frozenset(), tr, None, lambda a, b: a | b, eh=True)
+    return before.get(pos, frozenset())
+
+
+def reaching_init(fn, name, pos):
+    """Initialiser / assigned tree of the unique definition of local `name` reaching pos, else None."""
+    ds = reaching_defs(fn, name, pos)
+    if len(ds) != 1:
+        return None
+    b, i = next(iter(ds))
+    ev = fn.blocks[b].events[i]
+    if ev.get("k") == "decl":
+        return ev.get("init")
+    if ev.get("k") == "write" and ev.get("op") == "=":
+        return ev.get("rhs")
+    return None
+
+
+def precedes_on_all_paths(fn, a_pred, b_pos, reset_pred=None, edge_pred=None):
     """Must some event satisfying a_pred occur before position b_pos on every path from entry?
     (forward must-analysis with a boolean state; reset_pred events clear it)."""
     def tr(st, ev, pos):
@@ -495,7 +540,11 @@ def precedes_on_all_paths(fn, a_pred, b_pos, reset_pred=None):
         if a_pred(ev):
             st = True
         return st
-    before, _, _ = forward(fn, False, tr, None, lambda a, b: a and b, eh=True)
+    er = None
+    if edge_pred:
+        def er(st, blk, raw):
+            return True if edge_pred(blk, raw) else st
+    before, _, _ = forward(fn, False, tr, None, lambda a, b: a and b, eh=True, edge_raw=er)
     return before.get(b_pos)
 
 
